@@ -70,8 +70,23 @@ func genTree(c *core.Ctx, cli bool) *core.N {
 	if c.G.Chance(0.05) {
 		n = rootTip(c, &o, n)
 	}
+	if !cli && c.G.Chance(0.4) {
+		shufflePPos(c, n, true)
+	}
 	core.NumberEdges(n)
 	return n
+}
+
+// shufflePPos puts the parent of inner nodes at a random position of their neighbour slice — the
+// states Reroot / UnRoot / RerootOutGroup / removeTip / NNI leave behind (the Newick parser always
+// puts the parent first).  core.Build honours PPos and re-reads the result with α.
+func shufflePPos(c *core.Ctx, n *core.N, isRoot bool) {
+	if !isRoot && len(n.Kids) > 0 {
+		n.PPos = c.G.Intn(len(n.Kids) + 1)
+	}
+	for _, k := range n.Kids {
+		shufflePPos(c, k, false)
+	}
 }
 
 // rootTip hangs the tree under a new root that has this single neighbour: the root is a tip
@@ -517,6 +532,9 @@ func resolveCase(c *core.Ctx, cli bool) {
 	n, _ := c.G.Tree(o)
 	if c.G.Chance(0.06) {
 		n = rootTip(c, &o, n)
+	}
+	if !cli && c.G.Chance(0.5) {
+		shufflePPos(c, n, true)
 	}
 	core.NumberEdges(n)
 	doResolve(c, cli, int64(c.G.Intn(1<<30)), n)
